@@ -1,20 +1,19 @@
 (* C01 -- mount brings a layer stack to exactly its configured mounts, only as needed.
-   Statements only; proofs in Proofs/C01P.v (from the mount trace of Proofs/MntTraceP.v).
-   All theorems are about the MODEL's own `mount n` step, seen through the same view the
-   property predicate C01.step_spec is evaluated on:  mview cfg w e n um  =
-   LC.view_of_model cfg w e (CMount n) um.  They quantify over every configuration, world,
-   layer name, users map and (plain) environment.  `_partial` = holds under the extra decidable
-   hypotheses listed; each of those is shown necessary by a closed counterexample in
-   Proofs/C01ExamplesP.v (see docs/proofs-C01.md). *)
+   Statements only; proofs in Proofs/C01P.v, Proofs/C01HoldsP.v (from the mount trace of
+   Proofs/MntTraceP.v).  The model-level theorems are about the MODEL's own `mount n` step, seen
+   through the view the property predicate C01.step_spec is evaluated on:
+   mview cfg w e n um = LC.view_of_model cfg w e (CMount n) um.  They quantify over every
+   configuration, world, layer name, users map and (plain) environment.  `_partial` = holds under
+   the extra decidable hypotheses listed; the remaining ones are shown necessary by closed
+   witnesses in Proofs/C01ExamplesP.v (see docs/proofs-C01.md). *)
 From LC Require Import Lib.Bytes Lib.PathM Model.MountInfo Model.FsTree Model.Kernel Model.Layers
   Cases.LC Cases.C01 Proofs.MntTraceP Proofs.MntOrderP Proofs.MntNeededP Proofs.MntPostP
-  Proofs.C01P Proofs.C01ExamplesP.
+  Proofs.C01P Proofs.C01HoldsP Proofs.C01ExamplesP.
 Import LC LCS.
 
 (* the model's run IS a mount trace over the items of the chain read from disk: per layer the
-   overlay (if derived) then the imports in configuration order, skipped when the cached table
-   shows the target mounted, the cache refreshed after every import mount and at the end of a
-   layer.  Everything below is derived from this by list reasoning. *)
+   overlay (if derived) then the imports in configuration order, skipped when a fresh probe of
+   the kernel table shows the target mounted.  Everything below is derived from this. *)
 Theorem C01_trace : forall cfg w e n um, plain_env e = true ->
   exists stat,
     ltrace (wo_ks w) (chain_items cfg (wo_fs w) n) (syscalls (v_log (mview cfg w e n um)))
@@ -34,32 +33,20 @@ Theorem C01_order : forall cfg w e n um, plain_env e = true ->
 Proof. exact C01_order_proof. Qed.
 Print Assumptions C01_order.
 
-(* (b) propagation -- partial: needs "/dev,/sys,/run are only imported as rbind" and "the run did
-   not fail"; refuted otherwise (C01_propagation_refuted_plain_bind / _failed_rbind) *)
-Theorem C01_propagation_partial : forall cfg w e n um, plain_env e = true ->
-  psources_rbind cfg (chain cfg (wo_fs w) n) = true ->
-  rclass_beq (v_res (mview cfg w e n um)) RFail = false ->
-  C01.propagation_ok (syscalls (v_log (mview cfg w e n um))) = true.
-Proof. exact C01_propagation_partial_proof. Qed.
-Print Assumptions C01_propagation_partial.
+(* (b) propagation -- full *)
+Theorem C01_propagation : forall cfg w e n um, plain_env e = true ->
+  C01.propagation_ok (rclass_beq (v_res (mview cfg w e n um)) RFail)
+                     (syscalls (v_log (mview cfg w e n um))) = true.
+Proof. exact C01_propagation_proof. Qed.
+Print Assumptions C01_propagation.
 
-(* (b') whatever the result: the calls are well paired, or the run failed and they are well paired
-   up to the last call (the mount call that failed) *)
-Theorem C01_propagation_or_failed_partial : forall cfg w e n um, plain_env e = true ->
-  psources_rbind cfg (chain cfg (wo_fs w) n) = true ->
-  C01.propagation_ok (syscalls (v_log (mview cfg w e n um))) = true
-  \/ (v_res (mview cfg w e n um) = RFail
-      /\ C01.propagation_ok (removelast (syscalls (v_log (mview cfg w e n um)))) = true).
-Proof. exact C01_propagation_or_failed_partial_proof. Qed.
-Print Assumptions C01_propagation_or_failed_partial.
-
-(* (c) nothing stacked, nothing outside the build roots -- partial: needs "no import of a derived
-   layer is mounted on its build root"; refuted otherwise (C01_only_needed_refuted_root_import) *)
-Theorem C01_only_needed_partial : forall cfg w e n um, plain_env e = true ->
+(* (c) nothing stacked, nothing outside the build roots -- full (well-formed table, absolute
+   layers directory: parts of LC.wf); the replay may run over ANY file tree *)
+Theorem C01_only_needed : forall cfg w e n um, plain_env e = true ->
   wf_table (ks_tab (wo_ks w)) = true ->
   is_abs (c_layers cfg) = true ->
-  no_root_import cfg (chain cfg (wo_fs w) n) = true ->
-  replay_calls (wo_fs (v_after (mview cfg w e n um))) (wo_ks w)
+  forall f,
+  replay_calls f (wo_ks w)
     (syscalls (v_log (mview cfg w e n um)))
     (fun ks o =>
        match o with
@@ -70,8 +57,8 @@ Theorem C01_only_needed_partial : forall cfg w e n um, plain_env e = true ->
        | OUmount _ _ => false
        | _ => true
        end) = true.
-Proof. exact C01_only_needed_partial_proof. Qed.
-Print Assumptions C01_only_needed_partial.
+Proof. exact C01_only_needed_proof. Qed.
+Print Assumptions C01_only_needed.
 
 (* (d) 1: after a successful mount every expected mountpoint of the chain is mounted -- full *)
 Theorem C01_post_mounted : forall cfg w e n um, plain_env e = true ->
@@ -88,17 +75,15 @@ Theorem C01_keeps_wf : forall cfg w e n um, plain_env e = true ->
 Proof. exact mount_keeps_wf. Qed.
 Print Assumptions C01_keeps_wf.
 
-(* (d) 2: exactly one mount on every expected mountpoint -- partial: needs nothing stacked there
-   beforehand and no expected mountpoint below an rbind import's mountpoint; refuted otherwise
-   (C01_post_refuted_prestacked, C01_post_refuted_rbind_copy) *)
+(* (d) 2: on every expected mountpoint the count is max 1 (count before) -- partial: needs "no
+   expected mountpoint below an rbind import's mountpoint" (witnesses: C01_refuted_1 with
+   kf = 1, and C01_holds_refuted_rbind_over_later with kf = 0) *)
 Theorem C01_post_count_partial : forall cfg w e n um, plain_env e = true ->
   wf_table (ks_tab (wo_ks w)) = true ->
-  is_abs (c_layers cfg) = true ->
-  no_root_import cfg (chain cfg (wo_fs w) n) = true ->
   rbind_clear cfg (chain cfg (wo_fs w) n) = true ->
-  nostack0 cfg (chain cfg (wo_fs w) n) (ks_tab (wo_ks w)) = true ->
   v_res (mview cfg w e n um) = ROk ->
-  count_one cfg (chain cfg (wo_fs w) n) (ks_tab (wo_ks (v_after (mview cfg w e n um)))) = true.
+  count_post cfg (chain cfg (wo_fs w) n) (ks_tab (wo_ks w))
+             (ks_tab (wo_ks (v_after (mview cfg w e n um)))) = true.
 Proof. exact C01_post_count_partial_proof. Qed.
 Print Assumptions C01_post_count_partial.
 
@@ -107,10 +92,7 @@ Print Assumptions C01_post_count_partial.
    different, no comma in the overlay directories, decimal ids below 10^24 *)
 Theorem C01_post_partial : forall cfg w e n um, plain_env e = true ->
   wf_table (ks_tab (wo_ks w)) = true ->
-  is_abs (c_layers cfg) = true ->
-  no_root_import cfg (chain cfg (wo_fs w) n) = true ->
   rbind_clear cfg (chain cfg (wo_fs w) n) = true ->
-  nostack0 cfg (chain cfg (wo_fs w) n) (ks_tab (wo_ks w)) = true ->
   pre_right cfg (wo_fs w) (chain cfg (wo_fs w) n) (ks_tab (wo_ks w)) = true ->
   nodup_targets cfg (chain cfg (wo_fs w) n) = true ->
   nocomma_paths cfg (layers_on_disk cfg (wo_fs w)) (chain cfg (wo_fs w) n) = true ->
@@ -118,12 +100,13 @@ Theorem C01_post_partial : forall cfg w e n um, plain_env e = true ->
   id_bound (wo_ks (v_after (mview cfg w e n um))) = true ->
   v_res (mview cfg w e n um) = ROk ->
   C01.mount_post cfg (wo_fs w) (layers_on_disk cfg (wo_fs w)) (chain cfg (wo_fs w) n)
-    (ks_tab (wo_ks (v_after (mview cfg w e n um)))) = true.
+    (ks_tab (wo_ks w)) (ks_tab (wo_ks (v_after (mview cfg w e n um)))) = true.
 Proof. exact C01_post_partial_proof. Qed.
 Print Assumptions C01_post_partial.
 
 (* (e) a second mount from the resulting world issues no mount/umount call and leaves the kernel
-   alone -- partial: needs "the first mount did not alter the layer definitions on disk" *)
+   alone -- partial: needs "the first mount did not alter the layer definitions on disk"
+   (witness without it: C01_refuted_idempotent_config_rewritten) *)
 Theorem C01_idempotent_partial : forall cfg w e n um e2 um2,
   plain_env e = true -> plain_env e2 = true ->
   wf_table (ks_tab (wo_ks w)) = true ->
@@ -136,16 +119,22 @@ Theorem C01_idempotent_partial : forall cfg w e n um e2 um2,
 Proof. exact C01_idempotent_partial_proof. Qed.
 Print Assumptions C01_idempotent_partial.
 
-(* the conjunction, with mount_post as a premise *)
+(* the conjunction: whenever the command does not succeed the whole predicate holds -- full *)
+Theorem C01_model_not_ok : forall cfg w e n um, plain_env e = true ->
+  wf_table (ks_tab (wo_ks w)) = true ->
+  is_abs (c_layers cfg) = true ->
+  rclass_beq (v_res (LC.view_of_model cfg w e (CMount n) um)) ROk = false ->
+  C01.step_spec cfg w (LC.view_of_model cfg w e (CMount n) um) = true.
+Proof. exact C01_model_not_ok_proof. Qed.
+Print Assumptions C01_model_not_ok.
+
+(* the conjunction with mount_post as a premise *)
 Theorem C01_model_given_post : forall cfg w e n um, plain_env e = true ->
   wf_table (ks_tab (wo_ks w)) = true ->
   is_abs (c_layers cfg) = true ->
-  no_root_import cfg (chain cfg (wo_fs w) n) = true ->
-  psources_rbind cfg (chain cfg (wo_fs w) n) = true ->
-  rclass_beq (v_res (mview cfg w e n um)) RFail = false ->
   (v_res (mview cfg w e n um) = ROk ->
    C01.mount_post cfg (wo_fs w) (layers_on_disk cfg (wo_fs w)) (chain cfg (wo_fs w) n)
-     (ks_tab (wo_ks (v_after (mview cfg w e n um)))) = true) ->
+     (ks_tab (wo_ks w)) (ks_tab (wo_ks (v_after (mview cfg w e n um)))) = true) ->
   C01.step_spec cfg w (LC.view_of_model cfg w e (CMount n) um) = true.
 Proof. exact C01_model_given_post_proof. Qed.
 Print Assumptions C01_model_given_post.
@@ -154,92 +143,67 @@ Print Assumptions C01_model_given_post.
 Theorem C01_model_partial : forall cfg w e n um, plain_env e = true ->
   wf_table (ks_tab (wo_ks w)) = true ->
   is_abs (c_layers cfg) = true ->
-  no_root_import cfg (chain cfg (wo_fs w) n) = true ->
-  psources_rbind cfg (chain cfg (wo_fs w) n) = true ->
   rbind_clear cfg (chain cfg (wo_fs w) n) = true ->
-  nostack0 cfg (chain cfg (wo_fs w) n) (ks_tab (wo_ks w)) = true ->
   pre_right cfg (wo_fs w) (chain cfg (wo_fs w) n) (ks_tab (wo_ks w)) = true ->
   nodup_targets cfg (chain cfg (wo_fs w) n) = true ->
   nocomma_paths cfg (layers_on_disk cfg (wo_fs w)) (chain cfg (wo_fs w) n) = true ->
   ids_ok (wo_ks w) = true ->
   id_bound (wo_ks (v_after (LC.view_of_model cfg w e (CMount n) um))) = true ->
-  rclass_beq (v_res (LC.view_of_model cfg w e (CMount n) um)) RFail = false ->
   C01.step_spec cfg w (LC.view_of_model cfg w e (CMount n) um) = true.
 Proof. exact C01_model_partial_proof. Qed.
 Print Assumptions C01_model_partial.
 
-(* refutations of the unconditioned conjuncts (closed witnesses, vm_compute) *)
-Theorem C01_refuted_propagation_failed_rbind :
-  plain_env ex_env = true
-  /\ psources_rbind ex_cfg (chain ex_cfg (wo_fs w_b1) d1) = true
-  /\ v_res v_b1 = RFail
-  /\ C01.propagation_ok (syscalls (v_log v_b1)) = false
-  /\ C01.step_spec ex_cfg w_b1 v_b1 = false.
-Proof. exact C01_propagation_refuted_failed_rbind. Qed.
-Print Assumptions C01_refuted_propagation_failed_rbind.
+(* per observed step: a step that corresponds to the model satisfies the predicate, given the
+   hypotheses of the partial theorems as one decidable predicate [step_hyps] on the observed
+   world before the step (true for every non-mount step, every -p / fault-plan step, and every
+   mount step that did not succeed on a well-formed table) *)
+Theorem C01_step_holds : forall cfg w s, is_abs (c_layers cfg) = true ->
+  step_corr cfg w s = true -> step_hyps cfg w s = true ->
+  C01.step_spec cfg w (view_of_obs w s) = true.
+Proof. exact step_holds. Qed.
+Print Assumptions C01_step_holds.
 
-Theorem C01_refuted_propagation_plain_bind :
-  plain_env ex_env = true
-  /\ psources_rbind ex_cfg (chain ex_cfg (wo_fs w_b2) d1) = false
-  /\ v_res v_b2 = ROk
-  /\ length (syscalls (v_log v_b2)) = 3%nat
-  /\ C01.propagation_ok (syscalls (v_log v_b2)) = false
-  /\ C01.step_spec ex_cfg w_b2 v_b2 = false.
-Proof. exact C01_propagation_refuted_plain_bind. Qed.
-Print Assumptions C01_refuted_propagation_plain_bind.
+(* per case -- partial: C01_holds (forall c, wf c -> kf c = 0 -> corr c -> spec c) is FALSE
+   (witnesses below); this is what holds instead *)
+Theorem C01_holds_partial : forall c,
+  C01.wf c = true -> LC.corr c = true ->
+  along (step_hyps (c_cfg c)) (w0 c) (c_steps c) = true ->
+  C01.spec c = true.
+Proof. exact C01_holds_partial_proof. Qed.
+Print Assumptions C01_holds_partial.
 
-Theorem C01_refuted_only_needed_root_import :
-  plain_env ex_env = true
-  /\ wf_table (ks_tab (wo_ks w_c)) = true
-  /\ is_abs (c_layers ex_cfg) = true
-  /\ no_root_import ex_cfg (chain ex_cfg (wo_fs w_c) d1) = false
-  /\ mount_targets (syscalls (v_log v_c)) = [bs "/b/layers/d1/build"; bs "/b/layers/d1/build"]
-  /\ replay_calls (wo_fs (v_after v_c)) (wo_ks w_c) (syscalls (v_log v_c))
-       (Pc ex_cfg (chain ex_cfg (wo_fs w_c) d1)) = false
-  /\ C01.step_spec ex_cfg w_c v_c = false.
-Proof. exact C01_only_needed_refuted_root_import. Qed.
-Print Assumptions C01_refuted_only_needed_root_import.
-
-Theorem C01_refuted_post_prestacked :
-  plain_env ex_env = true
-  /\ wf_table (ks_tab (wo_ks w_d)) = true
-  /\ v_res v_d = ROk
-  /\ syscalls (v_log v_d) = []
-  /\ count_at (ks_tab (wo_ks (v_after v_d))) (bs "/b/layers/base0/build/mnt") = 2%nat
-  /\ all_mounted ex_cfg (chain ex_cfg (wo_fs w_d) (bs "base0")) (ks_tab (wo_ks (v_after v_d))) = true
-  /\ C01.mount_post ex_cfg (wo_fs w_d) (layers_on_disk ex_cfg (wo_fs w_d))
-       (chain ex_cfg (wo_fs w_d) (bs "base0")) (ks_tab (wo_ks (v_after v_d))) = false
-  /\ C01.step_spec ex_cfg w_d v_d = false.
-Proof. exact C01_post_refuted_prestacked. Qed.
-Print Assumptions C01_refuted_post_prestacked.
-
-Theorem C01_refuted_post_rbind_copy :
-  plain_env ex_env = true
-  /\ wf_table (ks_tab (wo_ks w_r)) = true
-  /\ no_root_import ex_cfg (chain ex_cfg (wo_fs w_r) d1) = true
-  /\ nostack0 ex_cfg (chain ex_cfg (wo_fs w_r) d1) (ks_tab (wo_ks w_r)) = true
-  /\ all_mounted ex_cfg (chain ex_cfg (wo_fs w_r) d1) (ks_tab (wo_ks w_r)) = false
+(* ---- closed witnesses (vm_compute) *)
+(* known finding 1: a case of class kf = 1 on which the predicate fails *)
+Theorem C01_refuted_1 :
+  C01.wf c_r = true /\ LC.corr c_r = true /\ C01.kf c_r = 1 /\ C01.spec c_r = false
   /\ rbind_clear ex_cfg (chain ex_cfg (wo_fs w_r) d1) = false
   /\ v_res v_r = ROk
-  /\ count_at (ks_tab (wo_ks (v_after v_r))) (bs "/b/layers/d1/build/mnt/sub") = 2%nat
-  /\ C01.step_spec ex_cfg w_r v_r = false.
-Proof. exact C01_post_refuted_rbind_copy. Qed.
-Print Assumptions C01_refuted_post_rbind_copy.
+  /\ count_at (ks_tab (wo_ks (v_after v_r))) (bs "/b/layers/d1/build/mnt/sub") = 2%nat.
+Proof. exact C01_refuted_1_witness. Qed.
+Print Assumptions C01_refuted_1.
 
-Theorem C01_refuted_post_later_source :
-  plain_env ex_env = true
-  /\ wf_table (ks_tab (wo_ks w_s)) = true
-  /\ nostack0 ex_cfg (chain ex_cfg (wo_fs w_s) (bs "base0")) (ks_tab (wo_ks w_s)) = true
+(* C01_holds refuted with kf = 0: an rbind import above a LATER import *)
+Theorem C01_holds_refuted_later_import :
+  C01.wf c_q = true /\ LC.corr c_q = true /\ C01.kf c_q = 0 /\ C01.spec c_q = false
+  /\ rbind_clear ex_cfg (chain ex_cfg (wo_fs w_q) d1) = false
+  /\ v_res v_q = ROk
+  /\ count_at (ks_tab (wo_ks w_q)) (bs "/b/layers/d1/build/mnt/sub") = 0%nat
+  /\ count_at (ks_tab (wo_ks (v_after v_q))) (bs "/b/layers/d1/build/mnt/sub") = 2%nat.
+Proof. exact C01_holds_refuted_rbind_over_later. Qed.
+Print Assumptions C01_holds_refuted_later_import.
+
+(* C01_holds refuted with kf = 0: a pre-existing bind whose source path was mounted later *)
+Theorem C01_holds_refuted_later_source :
+  C01.wf c_s = true /\ LC.corr c_s = true /\ C01.kf c_s = 0 /\ C01.spec c_s = false
   /\ pre_right ex_cfg (wo_fs w_s) (chain ex_cfg (wo_fs w_s) (bs "base0")) (ks_tab (wo_ks w_s)) = false
   /\ v_res v_s = ROk
   /\ syscalls (v_log v_s) = []
   /\ count_at (ks_tab (wo_ks (v_after v_s))) (bs "/b/layers/base0/build/mnt") = 1%nat
-  /\ C01.mount_post ex_cfg (wo_fs w_s) (layers_on_disk ex_cfg (wo_fs w_s))
-       (chain ex_cfg (wo_fs w_s) (bs "base0")) (ks_tab (wo_ks (v_after v_s))) = false
   /\ C01.step_spec ex_cfg w_s v_s = false.
 Proof. exact C01_post_refuted_later_source. Qed.
-Print Assumptions C01_refuted_post_later_source.
+Print Assumptions C01_holds_refuted_later_source.
 
+(* (e) refuted without "layer definitions unchanged" *)
 Theorem C01_refuted_idempotent_config_rewritten :
   plain_env ex_env = true
   /\ wf_cfg cfg_e = true
